@@ -119,7 +119,7 @@ CLAIMED = {
         text="PARTIAL (thin). Solver-decided (MIR->SMT, z3 + cvc5) panic- and overflow-freedom of ONE iteration of clap_complete::engine::complete's shadow-parse loop from an ARBITRARY state "
              "(parse state, positional index, escape flag, current command havoc'd), with parse_positional / parse_opt_value executed from their own MIR and opt_allows_hyphen / pos_allows_hyphen inlined. "
              "complete_arg: on every Ok path hidden candidates are filtered (retain(!hidden) iff any(!hidden)) BEFORE the de-duplication by id; the subcommand level is advanced by Command::find_subcommand(value) "
-             "and nothing else; an option awaits a value only if it takes values and none was attached; a word is looked up as a subcommand only before `--` and in state ValueDone (or with subcommand precedence). What complete_option / complete_subcommand / complete_arg_value enumerate and the shell adapters are not decided.",
+             "and nothing else; an option awaits a value only if it takes values and none was attached; a word is looked up as a subcommand only before `--` and in state ValueDone (or with subcommand precedence). The five shell adapters' write_complete have no reachable integer overflow edge. What complete_option / complete_subcommand / complete_arg_value enumerate and the adapters' output format are not decided.",
         note="One loop body as a MIR fragment; callees other than the four helpers are opaque pure values; counters bounded by 2^48; candidates are realised by /verif/native/c18 through the public API.",
         ref="2 C18", technique="own MIR->SMT translation of a loop body (bit-vectors), z3 + cvc5, native replay"),
     "C19": dict(
@@ -180,7 +180,7 @@ def main():
         ],
         "checks": checks,
         "not_applicable": [{"property_id": k, "reason": v} for k, v in sorted(na.items())],
-        "notes": "Every verdict is 'holds for all inputs inside the bound stated in evidence/<id>.json'. exit 2 = inconclusive (timeout/OOM/vacuous harness/unreproduced counterexample), never reported as success. Known findings (genuine defects recorded rather than repaired) and the list of repaired ones are in /verif/known_findings.txt: currently two findings (C11 no_binary_name usage names; C12 sort-key collision between a short flag and a long-only option) and eleven `fixed:` entries whose fix: commits are in /repo. See DESIGN.md 1.5.",
+        "notes": "Every verdict is 'holds for all inputs inside the bound stated in evidence/<id>.json'. exit 2 = inconclusive (timeout/OOM/vacuous harness/unreproduced counterexample), never reported as success. Known findings (genuine defects recorded rather than repaired) and the list of repaired ones are in /verif/known_findings.txt: currently two findings (C11 no_binary_name usage names; C12 sort-key collision between a short flag and a long-only option) and twelve `fixed:` entries whose fix: commits are in /repo. See DESIGN.md 1.5.",
     }
     with open(os.path.join(VERIF, "MANIFEST.json"), "w") as f:
         json.dump(m, f, indent=1)
